@@ -76,13 +76,17 @@ static void tm_case(const char* id, const char* form, const char* kind) {
         fill_tri(A.data(), M, K, tag_id<L>::v, draw, r);
         fill_tri(B.data(), K, N, tag_id<R>::v, draw, r);
         std::vector<T> blk;
+        // the recorded inputs are the operands as they were BEFORE the call; "opsame" reports whether the call left them unchanged
+        const std::vector<T> a0(A.data(), A.data() + M * K), b0(B.data(), B.data() + K * N);
         run_form<T,M,K,N,L,R,TC>(std::integral_constant<int,FORM>(), A, B, blk);
+        const int opsame = std::equal(a0.begin(), a0.end(), A.data()) && std::equal(b0.begin(), b0.end(), B.data());
         vt::Ev ev("Tmatmul");
         ev.str("case", cid);
         ev.s += ",\"in\":{\"T\":\""; ev.s += vt::tag<T>::s(); ev.s += "\"";
         ev.str("form", form).str("kind", kind).str("lt", tag_id<L>::s()).str("rt", tag_id<R>::s()).num("M", M).num("K", K).num("N", N);
-        ev.arr("A", A.data(), M * K).arr("B", B.data(), K * N);
+        ev.arr("A", a0.data(), M * K).arr("B", b0.data(), K * N);
         ev.s += "},\"out\":{\"x\":0";
+        ev.num("opsame", opsame);
         ev.arr("blk", blk.data(), blk.size());
         ev.s += "}";
         ev.emit();
